@@ -120,7 +120,7 @@ CASES = [
     ("computeTimeLimit: max (not min) with timeMaxRemainingMoves", "Time", ENGINE_C, "moves = std::min(moves, static_cast<int>(timeMaxRemainingMoves));", "moves = std::max(moves, static_cast<int>(timeMaxRemainingMoves));", "break"),
     ("computeTimeLimit: ternary for 999, declarations reordered", "Time", ENGINE_C,
      "            int moves = sPar.movesToGo;\n            if (moves == 0)\n                moves = 999;\n            moves = std::min(moves, static_cast<int>(timeMaxRemainingMoves)); // Assume at most N more moves until end of game\n            bool white = pos.isWhiteMove();\n            int time = white ? sPar.wTime : sPar.bTime;\n            int inc  = white ? sPar.wInc : sPar.bInc;",
-     "            bool white = pos.isWhiteMove();\n            int moves = (sPar.movesToGo == 0) ? 999 : sPar.movesToGo;\n            moves = std::min(static_cast<int>(timeMaxRemainingMoves), moves);\n            int inc  = white ? sPar.wInc : sPar.bInc;\n            int time = white ? sPar.wTime : sPar.bTime;", "pass"),
+     "            int moves = (sPar.movesToGo == 0) ? 999 : sPar.movesToGo;\n            bool white = pos.isWhiteMove();\n            moves = std::min(static_cast<int>(timeMaxRemainingMoves), moves);\n            int inc  = white ? sPar.wInc : sPar.bInc;\n            int time = white ? sPar.wTime : sPar.bTime;", "pass"),
     ("clamp: written with comparisons", "Time", UTIL_H, "    return std::min(std::max(val, min), max);", "    T lo = val < min ? min : val;\n    return max < lo ? max : lo;", "pass"),
 ]
 
